@@ -19,20 +19,25 @@ META = {
              "encoding, a dataset with several chunks already stored, one "
              "operation: store_chunk of a new chunk / store_file / "
              "fetch_chunk / fetch_file / file_exists / sharded write+close / "
-             "HTTP fetch). For each scenario the I/O calls of the operation "
-             "are traced once, then EVERY call index x errno in {ENOSPC, "
-             "EACCES, EIO} (HTTP: connection reset) is injected and EVERY "
-             "event boundary is a crash point (plus torn last writes). "
-             "non-trivial = an injection or crash point other than the first "
-             "call of the operation; distinct_nontrivial counts distinct "
-             "(scenario class, call site, errno / crash) triples."),
+             "overwrite / refused overwrite / HTTP fetch). For each scenario "
+             "the I/O calls of the operation are traced once, then EVERY call "
+             "index x errno in {ENOSPC, EACCES, EIO} (HTTP: connection reset "
+             "at every request, and 403/404/500/503 replies) is injected and "
+             "EVERY event boundary is a crash point (plus torn last writes). "
+             "evaluations = traced scenarios + faulted executions + crash "
+             "states examined. non-trivial = a scenario with an injection or "
+             "crash point other than the first call of the operation; "
+             "distinct_nontrivial counts distinct such scenarios plus "
+             "distinct (accessor kind, operation, call site, errno / crash, "
+             "outcome) fault sites."),
     "trusted_base": ["vlib/faultfs.py: crash model = process killed between "
                      "(or inside) application-level write calls, earlier "
                      "closed files intact; self-checked on every scenario by "
                      "replaying the complete trace and comparing the trees"],
     "assumptions": ["kernel / power-loss reordering and fsync are out of "
-                    "reach", "in-place overwrite of an existing name is not "
-                    "used as the faulted operation"],
+                    "reach", "in-place overwrite of an existing name is "
+                    "faulted only up to the call that opens the file for "
+                    "writing (replacement is not atomic and not claimed to be)"],
 }
 
 ERRS = [("ENOSPC", errno.ENOSPC), ("EACCES", errno.EACCES),
@@ -452,6 +457,7 @@ def run_large(ctx, n):
             return
         ctx.count("injections", stats["faults"])
         ctx.count("crash_points", stats["crashes"])
+        ctx.evaluations += stats["faults"] + stats["crashes"]
         ctx.record(sc, stats["faults"] + stats["crashes"] > 1,
                    ["large", "op." + sc["op"], "enc." + sc["encoding"],
                     "gzip" if sc["gzip"] else "nogzip"])
@@ -465,6 +471,7 @@ def run(ctx, n):
             return
         ctx.count("injections", stats["faults"])
         ctx.count("crash_points", stats["crashes"])
+        ctx.evaluations += stats["faults"] + stats["crashes"]
         for site in stats["sites"]:
             ctx.nt.add(hash(("site",) + tuple(map(str, site))))
         ctx.record(sc, stats["faults"] + stats["crashes"] > 1,
@@ -581,6 +588,7 @@ def run_http(ctx, n):
         if k is None:
             return
         ctx.count("injections", k)
+        ctx.evaluations += k
         ctx.record(case, k > 1, ["kind." + case["kind"]])
     ctx.run_hypothesis(http_scenarios(), check, n)
 
